@@ -237,13 +237,15 @@ def driver_totals(p, spec, ref, dudx, cond, driver_scaling, mode):
             fd = conv(wm['units'], d.get('units'))[0] if d.get('units') else 1.0
             sd = _scale_of(d, len(wp))[0] if driver_scaling else np.ones(len(wp))
             Jr = ref.total_block(dudx, (ok, op), (wk, wp))
-            if driver_scaling:
-                Jr = Jr * (sr * fr)[:, None] / (sd * fd)[None, :]
             key = (r.get('alias') or r['name'], d['name'])
             if key not in Jd:
                 out.append(('driver-totals:missing-key', f"mode={mode}: {key} not in {sorted(Jd)}"))
                 continue
-            got = np.asarray(Jd[key])
+            got = np.asarray(Jd[key], dtype=float)
+            if driver_scaling and got.shape == Jr.shape:
+                # compare in model units: every entry is divided by its own scale factor, so that a large or small
+                # factor can neither hide an error nor turn round-off into one
+                got = got / ((sr * fr)[:, None] / (sd * fd)[None, :])
             tol = rt * (float(np.max(np.abs(Jr))) if Jr.size else 0.0) + 1e-11
             if got.shape != Jr.shape or (got.size and float(np.max(np.abs(got - Jr))) > tol):
                 out.append((f"driver-totals:{'scaled' if driver_scaling else 'unscaled'}-block-differs-from-reference",
@@ -285,7 +287,7 @@ def strategy(tier):
 
     @st.composite
     def case(draw):
-        spec = draw(model_spec(profile(p_f4=0.05, auto_ivc=0.1, promotions=0.25)))
+        spec = draw(model_spec(profile(p_f4=0.05, auto_ivc=0.1, promotions=0.25, chains=0.2)))
         outs = ['.'.join(c['path'] + [c['name'], v['name']]) for c in spec['comps'] if c['kind'] != 'ivc' for v in c['outputs']]
         ins = ['.'.join(c['path'] + [c['name'], v['name']]) for c in spec['comps'] if c['kind'] == 'ivc' for v in c['outputs']]
         of = draw(st.lists(st.sampled_from(outs), min_size=1, max_size=3, unique=True))
